@@ -251,6 +251,34 @@ def stage_paths(ctx, drv, findings):
             judge(ctx, rec, job, findings)
 
 
+def stage_cli_subprocess(ctx, findings):
+    """thorough tier: the real `octave write` executable in a subprocess (exit code + snapshots)."""
+    segs = SEGS_Q
+    paths = list(enum_paths(segs, 1, False)) + list(enum_paths(segs, 1, True)) + [p for p in EXTRA_PATHS if "\x00" not in p]
+    for _ in range(ctx.budget(0, 900)):
+        n = ctx.rng.randint(2, 4)
+        paths.append(("{SB}/" if ctx.rng.random() < 0.2 else "") + "/".join(ctx.rng.choice(segs) for _ in range(n)))
+    jobs = [{"kind": "base", "seed": 0, "paths": ch} for ch in chunked(paths, 40)]
+    for job, out in zip(jobs, vlib.pmap(PW.run_cli_subprocess_chunk, jobs, chunksize=1)):
+        for r in out["results"]:
+            case = {"path": r["p"], "tree": "base", "tree_seed": 0, "entry": "octave write (subprocess)"}
+            ctx.case(case)
+            ctx.count("cli_subprocess:" + ("done" if r["rc"] == 0 else "refused"))
+            fails = []
+            if r["out_changed"]:
+                fails.append(("outside:cli_subprocess", f"`octave write` changed {r['out_changed']} outside the sandbox"))
+            if r["cls"]["must_refuse"] and r["rc"] == 0:
+                fails.append(("not-refused:cli_subprocess", f"`octave write` exited 0 for a path that must be refused; changed={r['changed']}"))
+            elif r["cls"]["must_refuse"] and r["changed"]:
+                fails.append(("io-before-refusal:cli_subprocess", f"`octave write` refused but changed {r['changed']}"))
+            for why_class, why in fails:
+                hit = [f for f in findings if f["cls"] == "dangling_symlink_component" and CLASSES[f["cls"]](r)]
+                if hit:
+                    ctx.known_hits[hit[0]["id"]] = ctx.known_hits.get(hit[0]["id"], 0) + 1
+                else:
+                    ctx.failures.append({"case": case, "why": why, "why_class": why_class, "classification": r["cls"], "observed": r})
+
+
 def stage_schema(ctx, drv):
     names = schema_names(ctx)
     jobs = [{"names": ch, "tag": f"s{k}"} for k, ch in enumerate(chunked(names, max(2000, len(names) // (vlib.NCPU * 2) + 1)))]
@@ -419,6 +447,8 @@ def run(ctx: vlib.Ctx):
     stage_schema(ctx, drv)
     stage_frozen(ctx, drv)
     stage_uri(ctx, drv, findings)
+    if ctx.thorough:
+        stage_cli_subprocess(ctx, findings)
     finish_meta(ctx)
 
 
@@ -429,6 +459,12 @@ def finish_meta(ctx):
                    "observation layer: sys.addaudithook events + lstat snapshots (CPython raises the events in C)",
                    "modelled, not verified: control flow of the three validators, posixpath.realpath, pathlib.exists/is_symlink/resolve (Model/Paths.lean)",
                    "OS semantics of Model/Paths.lean: lstat/stat/readlink of a static tree, NAME_MAX=255, ELOOP only on genuine cycles (chains < 40 links)"]
+    ctx.extra["open_proof_targets"] = ["fuel adequacy of rpWalk/kWalk for finite trees (driver uses 100000; exhaustion is reported, never observed)",
+                                       "C19_source_uri with the fixed-point test (Gen.sourceUriFixpoint = true): resolved path is link-free without the loop guard"]
+    ctx.extra["partial_clauses"] = ["C19_validate_sound_partial: guard noDangling (F29) unless the walk has the repaired shape",
+                                    "C19_symlink_recheck_partial: guard `not dangling` unless the re-check is `is_symlink()` only",
+                                    "C19_source_uri_partial: guard uriMeetsLoop = false (F60)",
+                                    "time-of-check/time-of-use between validation and write is outside the model"]
     ctx.assumptions = ["the file system does not change between validation and use (time-of-check/time-of-use is outside the model)",
                        "H (SHA-256) is an arbitrary function in the theorems; the correspondence instantiates it with hashlib",
                        "fuel: theorems hold for every fuel; the driver uses 100000 and reports exhaustion separately (never observed)"]
@@ -453,6 +489,14 @@ def run_replay(ctx, proj, findings):
         names = [case["schema_name"]]
         out = PW.run_schema_chunk({"names": names})
         print(json.dumps(out["results"], indent=1)[:3000])
+    elif "standard_ref" in case:
+        out = PW.run_frozen_chunk({"refs": [case["standard_ref"]], "with_default": case.get("with_default", True)})
+        print(json.dumps(out["results"], indent=1)[:3000])
+        ctx.case(case)
+    elif "source_uri" in case:
+        out = PW.run_uri_chunk({"kind": case.get("tree", "base"), "seed": case.get("tree_seed", 0), "base": case.get("base", ""), "uris": [case["source_uri"]]})
+        print(json.dumps(out["results"], indent=1)[:3000])
+        ctx.case(case)
     else:
         print("replay: unsupported case kind; re-run the check with the recorded seed", file=sys.stderr)
     finish_meta(ctx)
